@@ -97,15 +97,23 @@ def run(ctx):
             wrappers.append(("grid", n, o.parent.dialect.name))
     from bloqade.shuttle import prelude
     groups = {k: {d.name for d in getattr(prelude, k).data} for k in ("tweezer", "move", "kernel")}
-    for (m, n, d) in wrappers:
+    # the published wrappers of the pinned tree (TEMPL) are part of the domain whether or not reflection still finds them
+    reflected = {(m, n): d for (m, n, d) in wrappers}
+    for (m, n) in sorted(set(reflected) | set(TEMPL)):
+        d = reflected.get((m, n))
+        if d is None:
+            ctx.count("published_wrapper_not_found_by_reflection")
         for kind in ("tweezer", "move", "kernel"):
             res, generic = try_define(kind, m, n)
             want = "accepted" if m in DOCUMENTED[kind] else "rejected"
-            model = "accepted" if d in groups[kind] else "rejected"
+            model = res if d is None else ("accepted" if d in groups[kind] else "rejected")
             case = {"wrapper": f"{m}.{n}", "decorator": kind}
             ctx.seen((m, n, kind), True)
             ctx.count("pairs")
             ctx.count("pairs_" + res.split(":")[0])
+            if res.startswith("other") and want == "accepted" and not generic:
+                ctx.fail(case, f"@{kind} does not accept {m}.{n}, which its documented vocabulary contains: {res[6:]}")
+                continue
             if res.startswith("other"):
                 if want == "rejected" or generic:
                     # not a vocabulary verdict (argument template unsuitable); the table theorem still covers it
@@ -126,6 +134,18 @@ def run(ctx):
         raise HarnessFault("too many wrapper/decorator pairs without a behavioural verdict (templates out of date)")
     tracer_guard(ctx)
 
+
+CUSTOM_GROUP_SRC = '''from typing import Any
+from kirin.prelude import basic_no_opt
+from bloqade.geometry.dialects import grid
+from bloqade.shuttle.dialects import action
+
+custom = basic_no_opt.union([action.dialect, grid.dialect])
+
+@custom
+def ck(g: grid.Grid[Any, Any]):
+    action.set_loc(g)
+'''
 
 GUARD_SRC = '''from typing import Any
 from bloqade.geometry.dialects import grid
@@ -179,6 +199,8 @@ def tracer_guard(ctx):
     plain = T.load_source("from kirin.prelude import basic_no_opt\n\n@basic_no_opt\ndef pf(g):\n    return None\n", "guardplain")
     for kind, mt, want_refused in (("tweezer", mod.tk, False), ("move", mod.mk, True), ("kernel", mod.kk, True),
                                    ("plain kirin function", plain.pf, True),
+                                   ("function of another dialect group that contains the action dialect",
+                                    T.load_source(CUSTOM_GROUP_SRC, "guardcustom").ck, True),
                                    ("closure capturing a value", mod.outer(G), False),
                                    ("closure capturing nothing", mod.outer_free(), False),
                                    ("closure capturing nothing (fold=False)", mod.outer_free_nofold(), False)):
